@@ -6,10 +6,13 @@
 //
 //	go build -tags verif,verifsched -overlay /verif/build/overlay-sched.json ./cmd/mc-sched
 //
-// and launched by the framework as `mc-sched worker C18 …`.
+// and launched by the framework as `mc-sched worker C18 …`. The same binary
+// also carries the schedule dimension of check C16 (`mc-sched worker C16 …`,
+// verif/mc/callmc/concworker), launched by C16's pre-step.
 package main
 
 import (
+	_ "verif/mc/callmc/concworker" // check C16, schedule dimension
 	"verif/mc/core"
 	_ "verif/mc/schedmc/worker"
 )
